@@ -65,7 +65,7 @@ func c04(c *Ctx) {
 		"(own round trip, canonical-form decode, cross-plugin tree equality, cross-plugin decode equality)"
 	c.R.Assume("protojson/proto of google.golang.org/protobuf are correct (definition of standard proto3 JSON and of message equality)")
 	c.R.Assume("reference JSON model internal/model/jsonmap implements the documented mapping (DESIGN.md Appendix F)")
-	feats := corpus.Features()
+	feats := append(corpus.Features(), corpus.FeaturesNested(c.Thorough(), int(c.Seed))...)
 	// All features are cheap here (no services): quick keeps them all but samples values.
 	fl, err := buildFeatureLab(c, "c04", feats, []variant{{Tag: "h", Plugins: []string{"go-http"}}, {Tag: "c", Plugins: []string{"go-client"}}}, false, nil, true)
 	if err != nil {
